@@ -180,7 +180,10 @@ pub fn bounds(ctx: &Ctx) {
         let (lo, hi) = (Some(override_val(ov_c, false)), Some(override_val(ov_c, true)));
         meta.color_limits = Some([lo, hi, lo, hi, lo, hi]);
     }
-    let spec = CloudSpec { meta, proto: proto.clone(), points: points.clone(), cap: None, abandon: false };
+    // packet capacity (hooked): with 1, 2 or 3 points per packet the extreme value is also carried by
+    // a point that completes a packet
+    let cap = [None, Some(1), Some(2), Some(3)][ctx.choose("packet-capacity", 4)];
+    let spec = CloudSpec { meta, proto: proto.clone(), points: points.clone(), cap, abandon: false };
     let p = Program { guid: "g".into(), ops: vec![Op::Cloud(spec)], ..Default::default() };
     ctx.describe(|| describe(&p));
     let Some(w) = write_valid(ctx, &p, P) else { return };
